@@ -56,6 +56,10 @@ struct Shadowed
 {
   G lib;
   Mat M;
+  // number of operations that contributed to this element counted with multiplicity (size of its expression tree):
+  // a program that re-uses a register as both operands (x = x * x) doubles every first-order error term per step, so
+  // the "(n+1)" bounds of the statement are applied with n = max(position in the program, this count) - see DESIGN.md
+  double ops = 0;
 };
 
 template<typename G>
@@ -114,38 +118,48 @@ static void history_monitor(Report & rep)
       std::string name;
       switch (op) {
         case 0:
-          R[size_t(i)].lib = R[size_t(j)].lib * R[size_t(k)].lib;
-          R[size_t(i)].M   = Mat(R[size_t(j)].M * R[size_t(k)].M);
+          {
+            const double c   = R[size_t(j)].ops + R[size_t(k)].ops + 1;
+            R[size_t(i)].lib = R[size_t(j)].lib * R[size_t(k)].lib;
+            R[size_t(i)].M   = Mat(R[size_t(j)].M * R[size_t(k)].M);
+            R[size_t(i)].ops = c;
+          }
           name             = "compose";
           break;
         case 1:
           R[size_t(i)].lib = R[size_t(j)].lib.inverse();
           R[size_t(i)].M   = orc::inv(R[size_t(j)].M);
+          R[size_t(i)].ops = R[size_t(j)].ops + 1;
           name             = "inverse";
           break;
         case 2:
           R[size_t(i)].lib = G::exp(Tangent(Tn[size_t(t)].template cast<S>()));
           R[size_t(i)].M   = orc::exp_ref(l, Tn[size_t(t)]);
+          R[size_t(i)].ops = 1;
           name             = "exp";
           break;
         case 3:
           R[size_t(i)].lib = R[size_t(j)].lib + Tangent(Tn[size_t(t)].template cast<S>());
           R[size_t(i)].M   = Mat(R[size_t(j)].M * orc::exp_ref(l, Tn[size_t(t)]));
+          R[size_t(i)].ops = R[size_t(j)].ops + 1;
           name             = "rplus";
           break;
         case 4:
           R[size_t(i)].M = Mat(R[size_t(i)].M * R[size_t(j)].M);  // before the library call (j may equal i)
           R[size_t(i)].lib *= G(R[size_t(j)].lib);
+          R[size_t(i)].ops = R[size_t(i)].ops + R[size_t(j)].ops + 1;
           name = "*=";
           break;
         case 5:
           R[size_t(i)].lib += Tangent(Tn[size_t(t)].template cast<S>());
           R[size_t(i)].M = Mat(R[size_t(i)].M * orc::exp_ref(l, Tn[size_t(t)]));
+          R[size_t(i)].ops += 1;
           name           = "+=";
           break;
         case 6:
           R[size_t(i)].lib = R[size_t(j)].lib.template cast<S>();
           R[size_t(i)].M   = R[size_t(j)].M;
+          R[size_t(i)].ops = R[size_t(j)].ops + 1;
           name             = "cast";
           break;
         case 7:
@@ -156,20 +170,33 @@ static void history_monitor(Report & rep)
           if constexpr (requires(G g) { g.lift_se3(); }) {
             R[size_t(i)].lib = R[size_t(j)].lib.lift_se3().project_se2();
             R[size_t(i)].M   = R[size_t(j)].M;
+            R[size_t(i)].ops = R[size_t(j)].ops + 2;
             name             = "project(lift)";
           } else if constexpr (requires(G g) { g.lift_so3(); }) {
             R[size_t(i)].lib = R[size_t(j)].lib.lift_so3().project_so2();
             R[size_t(i)].M   = R[size_t(j)].M;
+            R[size_t(i)].ops = R[size_t(j)].ops + 2;
             name             = "project(lift)";
           } else {
             R[size_t(i)].lib = R[size_t(j)].lib * R[size_t(j)].lib.inverse();
             R[size_t(i)].M   = orc::eye(l.dim);
+            R[size_t(i)].ops = 2 * R[size_t(j)].ops + 2;
             name             = "x*inverse(x)";
           }
         }
       }
       if (hist.size() < 600) hist += name + "(" + std::to_string(i) + "," + std::to_string(j) + "," + std::to_string(k) + ");";
-      check(R[size_t(i)], n + 1, name, len <= 30 ? "short_program" : "long_program", det);
+      {
+        const bool amplified = R[size_t(i)].ops > double(n + 1);
+        if (amplified) rep.count("C15.programs.reuse_amplified_results");
+        if (R[size_t(i)].ops > 1e6) {
+          // the expression tree is too large for any bound to be meaningful: the register is re-seeded
+          R[size_t(i)] = fresh(r);
+          rep.count("C15.programs.reseeded_after_amplification");
+          continue;
+        }
+        check(R[size_t(i)], std::max<long>(n + 1, long(R[size_t(i)].ops)), name, len <= 30 ? "short_program" : "long_program", det);
+      }
     }
     rep.note_input(hash_str(hist) ^ uint64_t(len), true);
     rep.count("C15.operations", len);
